@@ -388,6 +388,9 @@ class SFTPFile(BufferedFile):
         self.sftp._request(CMD_FSETSTAT, self.handle, attr)
         self._realpos = self._pos
         self._rbuffer = bytes()
+        if self._flags & self.FLAG_APPEND:
+            # appended data lands at the new end of the file
+            self._size = size
 
     def check(self, hash_algorithm, offset=0, length=0, block_size=0):
         """
